@@ -195,21 +195,22 @@ Definition suspend_drain (st : state) (first pushed : list item) : state * list 
           coroutine mode pushes them to the ready queue.
    how 1: co_await (coroutine mode): await_suspend (:167): pop the last, push the others, push the awaiting coroutine
    how 2: merged into the program's suspend point variable s (operator<<, :65)
-   result: state, events, suspend-point cost, deque cost, frames freed *)
-Definition dispose (coro : bool) (how s : Z) (st : state) (sp : spt) : state * list event * cost * cost * Z :=
+   result: state, events, suspend-point cost, deque cost, frames freed, size of the largest suspend point involved
+   (the returned one, or the variable after the merge) *)
+Definition dispose (coro : bool) (how s : Z) (st : state) (sp : spt) : state * list event * cost * cost * Z * Z :=
   if how =? 2 then
-    let '(d1, c) := sp_merge (gets st s) sp in (sets st s d1, [], c, c0, 0)
+    let '(d1, c) := sp_merge (gets st s) sp in (sets st s d1, [], c, c0, 0, sp_size d1)
   else if negb coro then
-    let '(st1, ev) := run_items st (sp_hs sp) in (st1, ev, sp_clear_cost sp, c0, zlen (sp_hs sp))
+    let '(st1, ev) := run_items st (sp_hs sp) in (st1, ev, sp_clear_cost sp, c0, zlen (sp_hs sp), sp_size sp)
   else if how =? 0 then
     let '(d1, c) := dq_pushes (dq st) (length (sp_hs sp)) in
-    (setq st (rq st ++ sp_hs sp) d1, [], sp_clear_cost sp, c, 0)
+    (setq st (rq st ++ sp_hs sp) d1, [], sp_clear_cost sp, c, 0, sp_size sp)
   else
     match sp_hs sp with
-    | [] => (st, [], sp_clear_cost sp, c0, 0)
+    | [] => (st, [], sp_clear_cost sp, c0, 0, sp_size sp)
     | h0 :: t0 =>
         let '(st1, ev, c, k) := suspend_drain st [last (sp_hs sp) h0] (removelast (sp_hs sp)) in
-        (st1, ev, sp_clear_cost sp, c, k)
+        (st1, ev, sp_clear_cost sp, c, k, sp_size sp)
     end.
 
 (* resume_chain_lk (awaiter.h:102): walk the chain from its head; a coroutine awaiter contributes its handle to
@@ -308,8 +309,7 @@ Definition step (coro heap : bool) (st : state) (x : op) : state * obs :=
         let v' := if (kind =? 0) && (f_ty x =? 0) then v else 0 in
         let st1 := setf st f (mkFut 3 (f_ty x) out v' []) in
         let '(st2, sp, csp, cb, sy) := walk f out v' st1 sp_empty (f_chain x) in
-        let '(st3, ev, csp2, cdq, k) := dispose coro how s st2 sp in
-        let sps := if how =? 2 then Z.max (sp_size sp) (sp_size (gets st3 s)) else sp_size sp in
+        let '(st3, ev, csp2, cdq, k, sps) := dispose coro how s st2 sp in
         (st3, mkObs 0 1 sps (frames_freed heap k) (cadd csp csp2) cdq (cb ++ ev ++ sort_ev sy))
       else (st, rejected)
   | FDestroy f =>
@@ -351,20 +351,17 @@ Definition step (coro heap : bool) (st : state) (x : op) : state * obs :=
         (* mutex::unlock (mutex.h:149): hand over to the first request in arrival order *)
         match m_q x with
         | [] =>
-            let '(st3, ev, csp2, cdq, k) := dispose coro how s (setm st m (mkMtx 0 [])) sp_empty in
-            let sps := if how =? 2 then sp_size (gets st3 s) else 0 in
+            let '(st3, ev, csp2, cdq, k, sps) := dispose coro how s (setm st m (mkMtx 0 [])) sp_empty in
             (st3, mkObs 0 0 sps (frames_freed heap k) csp2 cdq ev)
         | w :: q =>
             let st1 := release_waiter st w in
             let '(k0, i) := w in
             if k0 =? 0 then
               let '(sp, csp) := sp_add sp_empty (1, i, m) in
-              let '(st3, ev, csp2, cdq, k) := dispose coro how s (setm st1 m (mkMtx 2 q)) sp in
-              let sps := if how =? 2 then Z.max 1 (sp_size (gets st3 s)) else 1 in
+              let '(st3, ev, csp2, cdq, k, sps) := dispose coro how s (setm st1 m (mkMtx 2 q)) sp in
               (st3, mkObs 0 0 sps (frames_freed heap k) (cadd csp csp2) cdq ev)
             else
-              let '(st3, ev, csp2, cdq, k) := dispose coro how s (setm st1 m (mkMtx 1 q)) sp_empty in
-              let sps := if how =? 2 then sp_size (gets st3 s) else 0 in
+              let '(st3, ev, csp2, cdq, k, sps) := dispose coro how s (setm st1 m (mkMtx 1 q)) sp_empty in
               (st3, mkObs 0 0 sps (frames_freed heap k) csp2 cdq ((who w, 3, 0) :: ev))
         end
       else (st, rejected)
@@ -393,8 +390,8 @@ Definition step (coro heap : bool) (st : state) (x : op) : state * obs :=
   | SpFlush s how =>
       if inr s NS && ((how =? 0) || ((how =? 1) && coro)) then
         let sp := gets st s in
-        let '(st3, ev, csp2, cdq, k) := dispose coro how 0 (sets st s sp_empty) sp in
-        (st3, mkObs 0 0 (sp_size sp) (frames_freed heap k) csp2 cdq ev)
+        let '(st3, ev, csp2, cdq, k, sps) := dispose coro how 0 (sets st s sp_empty) sp in
+        (st3, mkObs 0 0 sps (frames_freed heap k) csp2 cdq ev)
       else (st, rejected)
   | Pause =>
       if coro then
